@@ -62,6 +62,8 @@ def make_interp(P, elem=None, hooks=True, assumptions=None):
         ec[path] = P.cls(mod, cls)
     I = Interp(P, elem_classes=ec, assumptions=assumptions or {})
     ALL_INTERPS.append(I)
+    from . import pyparsingmodel
+    pyparsingmodel.install(I)
     I.assumption_fns.append(species_nonempty)
     I.assumption_fns.append(inputs_callable)
     if hooks:
@@ -174,6 +176,11 @@ def normalize_optws(node):
 
 
 def run_method(I, inst, meth, args, kwargs=None):
+    """call a method a check names; a private one that the class does not (any longer) have is the check's problem
+    (ANALYSIS-ERROR), a missing public one is the package's (AttributeError -> rule .X)"""
+    if meth.startswith("_") and not meth.startswith("__") and isinstance(inst, InstV) and meth not in inst.attrs \
+            and inst.ci.lookup(meth) is None:
+        raise AnalysisError("the check relies on the private method %s.%s, which this tree does not have" % (inst.ci.name, meth))
     return I.call(I.getattr(inst, meth), args, kwargs or {})
 
 
